@@ -95,6 +95,14 @@ fn main() {
         return;
     }
 
+    unsafe {
+        // an interactive shell must survive Ctrl-C: the line editor catches
+        // it only while it reads a line; between two prompts, and while a
+        // builtin runs, the default action would kill the shell itself.
+        // (children get the default action back before exec.)
+        libc::signal(libc::SIGINT, libc::SIG_IGN);
+    }
+
     let mut rl;
     match Interface::new("cicada") {
         Ok(x) => rl = x,
